@@ -83,7 +83,7 @@ pub fn run_schedule(text: &str, calls: &[Vec<Value>], sched: &[usize], step_time
             let parked_any = g.st.iter().any(|s| *s == St::Parked);
             if !parked_any {
                 // nobody can be handed the turn: wait for a blocked thread to come back
-                let deadline = Instant::now() + step_timeout * 40;
+                let deadline = Instant::now() + Duration::from_secs(8);   // generous: only a real deadlock waits this long
                 loop {
                     let (g2, to) = cv.wait_timeout(g, step_timeout).unwrap();
                     g = g2;
